@@ -316,6 +316,14 @@ type outOfReach string
 
 func (e *Env) execStmt(s ast.Stmt, st *State) []Outcome {
 	c := e.C
+	if s != nil && (e.Top || e.litOfTop()) && c.Contract != nil && len(c.Contract.Ats) > 0 && !st.dead {
+		if ord, ok := c.stmtOrd[s.Pos()]; ok {
+			saved := c.specAt
+			c.specAt = s.Pos()
+			c.runAts(e, st, "before "+ord, nil)
+			c.specAt = saved
+		}
+	}
 	switch x := s.(type) {
 	case nil:
 		return []Outcome{{Kind: oNormal, St: st}}
